@@ -282,6 +282,10 @@ def f_add(a, b):
     return Fm(f'{a.text}+{b.text}', f'( app 0 {a.wire} {b.wire} )', a.ranges + b.ranges)
 
 
+def f_div(a, b):
+    return Fm(f'{a.text}/{b.text}', f'( app 3 {a.wire} {b.wire} )', a.ranges + b.ranges)
+
+
 def f_sum(*args):
     return Fm('SUM(' + ','.join(a.text for a in args) + ')', '( app 4 ' + ' '.join(a.wire for a in args) + ' )',
               sum((a.ranges for a in args), ()))
@@ -451,7 +455,8 @@ def has_sharing(mask, n, entry):
 def graph_cells(mask, n, mode, layout='col'):
     """render a graph: vertex i is cell A{i+1} (layout col) or the i-th cell of A1:B2/A1:C2 (layout grid);
     a vertex without successors is the constant i+1.
-    mode refs: =A2+A3 ; ranges: maximal runs of consecutive successors become SUM(A2:A3) ; repeat: the first
+    mode refs: =A2+A3 ; errleft: =1/0+A2+A3 with the leaves `=1/0` as well (an ERROR VALUE to the left of the
+    operand that closes the cycle: operators are strict, the cycle is still entered and reported) ; ranges: maximal runs of consecutive successors become SUM(A2:A3) ; repeat: the first
     successor is referenced once more at the end ; grid: successors = all cells -> SUM(A1:B2) ;
     andor: the successors (maximal runs as bare RANGE arguments, the others as references) are the arguments of
     AND (even vertices) / OR (odd vertices), the constants are (i+1) mod 3 — zeros and non-zeros, so a range
@@ -469,7 +474,8 @@ def graph_cells(mask, n, mode, layout='col'):
     for i in range(n):
         s = succ(mask, n, i)
         if not s:
-            cells[names[i]] = (i + 1) % 3 if mode == 'andor' else i + 1
+            cells[names[i]] = (f_div(f_num(1), f_num(0)) if mode == 'errleft' and i % 2 == 0 else
+                               (i + 1) % 3 if mode == 'andor' else i + 1)
             continue
         parts = []
         if mode == 'andor':
@@ -507,6 +513,8 @@ def graph_cells(mask, n, mode, layout='col'):
             parts = [f_ref(names[j], sheet) for j in s]
             if mode == 'repeat':
                 parts.append(f_ref(names[s[0]], sheet))
+        if mode == 'errleft' and i % 2 == 1:
+            parts.insert(0, f_div(f_num(1), f_num(0)))
         fm = parts[0]
         for p in parts[1:]:
             fm = f_add(fm, p)
@@ -944,7 +952,7 @@ def run(ctx):
                 'reachable cycle, or acyclic with a cell reached along two paths / referenced twice; every chain and '
                 'special case')
     t0 = time.time()
-    modes = ['refs', 'ranges', 'repeat']
+    modes = ['refs', 'ranges', 'repeat', 'errleft']
 
     def batches():
         yield special_jobs()
